@@ -38,6 +38,8 @@ type StrV struct {
 	// Alts[i].Cond holds (conditions mutually exclusive), Else when none does.
 	Alts []StrAlt
 	Else string
+	// OID: the value is the dotted-decimal rendering of these arcs (ObjectIdentifier.String)
+	OID []*BV
 }
 type StrAlt struct {
 	Cond string
